@@ -1,5 +1,6 @@
 import Bmc.Lemmas.SessionProps
 import Bmc.Lemmas.SessionlessSpec
+import Bmc.Lemmas.ResponseAccepted
 /-! # C11 — a result always comes from a response to the command that was sent (property theorems only) -/
 namespace Bmc.Proofs.C11
 open Bmc Bmc.Wire Bmc.Crypto Bmc.Proto
@@ -51,5 +52,52 @@ theorem sessionless_result_matches_request (c : Cmd) (hf : c.reqFails = false) (
     simp [slAcceptable] at hacc
     exact ⟨d, msg, hm, hvw, hacc.1.1.1.1, hacc.1.1.1.2, hacc.1.1.2, hacc.1.2, hc.1, hc.2⟩
   · simp at hc
+
+/-- a conforming response (any operation) as the script sees it -/
+structure Answer where
+  to : Cmd              -- the operation it answers
+  cc : UInt8
+  data : Bytes
+  seq : Nat
+  iv : Bytes
+
+def Answer.ok (C : Ops) (k : Keys) (a : Answer) : Prop :=
+  a.iv.length = 16 ∧ (responseMsg a.to a.cc).WF ∧ a.seq < 4294967296 ∧ (responseAes C k a.to a.cc a.data a.iv).length < 65536
+
+def Answer.datagram (C : Ops) (k : Keys) (a : Answer) : Outcome := .reply (responseDatagram C k a.to a.cc a.data a.seq a.iv)
+
+/-- NO DESYNCHRONISATION: any number of authentic responses to OTHER operations — duplicates, delayed replies to earlier
+    commands, unsolicited messages, with any completion codes and bodies — delivered before the response to the command
+    that is pending are each skipped (one retransmission each), and the caller receives the pending command's own
+    completion code and data; none of the strays'. For every lawful crypto, key set, counter and number of strays. -/
+theorem strays_are_skipped (C : Ops) (hC : C.Lawful) (c : Cmd) (hf : c.reqFails = false) (s : Sess) (hs : s.inbound < 4294967296)
+    (hid : s.localID < 4294967296) (strays : List Answer) (own : Answer) (rest : List Outcome) (ivs : List Bytes)
+    (hstr : ∀ a ∈ strays, a.ok C s.keys ∧ sameOperation c a.to = false)
+    (hown : own.ok C s.keys) (hto : own.to = c) (hnt : isTemp own.cc = false)
+    (hl : strays.length + 1 + rest.length ≤ ivs.length) :
+    (sendLoop C c s ivs (strays.map (Answer.datagram C s.keys) ++ own.datagram C s.keys :: rest)).2 =
+      ((List.range (strays.length + 1)).map (fun i => datagramOf C s.keys c ((s.inbound + i) % 4294967296) (ivs.getD i [])),
+       .ok own.cc own.data) := by
+  have hexp : expected (classify C s.keys c) (strays.map (Answer.datagram C s.keys) ++ own.datagram C s.keys :: rest)
+      = (strays.length + 1, .ok own.cc own.data) := by
+    clear hl
+    induction strays with
+    | nil =>
+      obtain ⟨h1, h2, h3, h4⟩ := hown
+      subst hto
+      simp only [List.map_nil, List.nil_append, Answer.datagram, expected,
+        classify_response C hC s.keys own.to own.cc own.data own.seq own.iv h1 h2 hid h3 h4, hnt]
+      rfl
+    | cons a strays ih =>
+      obtain ⟨⟨h1, h2, h3, h4⟩, hne⟩ := hstr a (by simp)
+      have := ih (fun x hx => hstr x (by simp [hx]))
+      simp only [List.map_cons, List.cons_append, Answer.datagram, expected,
+        classify_stray C hC s.keys c a.to hne a.cc a.data a.seq a.iv h1 h2 hid h3 h4]
+      simp only [Answer.datagram] at this
+      rw [this]
+      rfl
+  have hspec := sendLoop_spec C c hf s hs ivs _ (by simp; omega : (strays.map (Answer.datagram C s.keys) ++ own.datagram C s.keys :: rest).length ≤ ivs.length)
+  rw [hexp] at hspec
+  exact Prod.ext hspec.2.1 hspec.1
 
 end Bmc.Proofs.C11
